@@ -75,6 +75,19 @@ func (prop) Drive(d *core.Driver) error {
 	srcs = append(srcs, g.Generate(d.N(2400, 200000), "gen")...)
 	var cases []core.Case
 	const batch = 12
+	// In front of the random batches, identical at every seed and in both tiers:
+	// the systematic enumeration of type shapes in every position where String
+	// decides on parentheses around a type (conversions, assertions, unary
+	// operands, results, parameters, composite literals).
+	enum := astgen.EnumTypeShapes()
+	for i := 0; i < len(enum); i += 24 {
+		j := i + 24
+		if j > len(enum) {
+			j = len(enum)
+		}
+		cases = append(cases, core.NewCase(fmt.Sprintf("enum-%d", i/24), CaseData{Sources: enum[i:j], Tolerate: tolerate}))
+	}
+	d.T.Set("enumerated_type_shape_sources", len(enum))
 	for i := 0; i < len(srcs); i += batch {
 		j := i + batch
 		if j > len(srcs) {
@@ -83,6 +96,7 @@ func (prop) Drive(d *core.Driver) error {
 		cases = append(cases, core.NewCase(fmt.Sprintf("batch-%d", i/batch), CaseData{Sources: srcs[i:j], Tolerate: tolerate}))
 	}
 	d.T.Rule = "every node of every tree parsed from a seeded sample of the repository corpora (test/compare/testdata programs and templates, string literals of the *_test.go files) and from grammar-generated programs, templates, statement lists and expressions: if the node has a source-form String (expressions and simple statements without function literals), String() is re-parsed inside a minimal wrapper of the same syntax family and the result compared reflectively with the node (positions and redundant parentheses ignored). distinct_nontrivial counts distinct (node type, child edge) pairs among judged nodes plus distinct operator pairings (parent operator, child operator, side)"
+	d.T.Rule += "; in front of them, identical at every seed: 6500 statements enumerating type shapes (14 leaves wrapped 1-3 deep in pointer, slice, array, map key, map value, channel directions, func result/parameter/variadic) as conversion callee, assertion type, unary operand, variable/result/parameter type, composite literal type, new/make argument"
 	d.T.Assumptions = []string{
 		"domain restriction of DESIGN.md C27: nodes without String, Block/Func descriptions and nodes containing them are counted (monitor counts out_of_domain:*) and not judged; expandedPrint is on",
 		"the number of parentheses stored on an expression is concrete syntax like positions: String() normalises it, the comparison ignores it, but operator nesting must be identical",
@@ -319,7 +333,13 @@ func plainIdentifier(name string) bool {
 func neverValid(n ast.Node) bool {
 	switch n := n.(type) {
 	case *ast.Selector:
-		return isNumber(n.Expr)
+		// also below unary operators: "(-(0x1F)).F" (a selector prints a unary
+		// operand without parentheses, open finding C27-F9)
+		e := n.Expr
+		for isUnary(e) {
+			e = e.(*ast.UnaryOperator).Expr
+		}
+		return isNumber(e)
 	case *ast.TypeAssertion:
 		return isNumber(n.Expr)
 	case *ast.Call:
@@ -346,6 +366,11 @@ func notAType(e ast.Expression) bool {
 		return e.Op != ast.OperatorPointer || notAType(e.Expr)
 	}
 	return false
+}
+
+func isUnary(e ast.Expression) bool {
+	_, ok := e.(*ast.UnaryOperator)
+	return ok
 }
 
 func isNumber(e ast.Expression) bool {
